@@ -199,6 +199,8 @@ def check(ctx):
     # run with sums to one (C08/R3: last write = division by the sum; first weights: C08/R5)
     share(ctx, 'C08', 'R5/C08.', ['R3.normalised', 'R5.', 'R6.'])
     share(ctx, 'C09', 'R5/C09.', ['R1.', 'R2.'])
+    # MPI: the calls of an iteration are split over the ranks of the communicator that is reduced over
+    share(ctx, 'C04', 'R6/C04.', ['R8.'])
 
     # ---------------------------------------------------------------- R4 PLAIN weight is one
     for f3 in instances(p, 'hep::plain_iteration'):
